@@ -126,6 +126,8 @@ def run_one(ctl: explorer.Ctl, cfg: Dict[str, Any]) -> Dict[str, Any]:
     raise_at = cfg.get("cb_raise_at")
     use_token = cfg.get("token", True)
     use_cb = bool(prog) or cfg.get("cb", False)
+    cb_takes = cfg.get("cb_takes")
+    wcl = cfg.get("write_closes")   # None | [who, time]: who closes the outgoing stream ("owner" = our end, "peer" = the reader), when (-1: before the call)
     loop = new_loop(horizon=4 * T + 5)
     viol: List[dict] = []
     with sched.patched_uuid() as stub:
@@ -153,6 +155,11 @@ def run_one(ctl: explorer.Ctl, cfg: Dict[str, Any]) -> Dict[str, Any]:
             cb_calls.append([progress, total, message])
             if raise_at is not None and i == raise_at:
                 raise _cb_exception(cfg.get("cb_exc", "RuntimeError"))
+            if cb_takes is not None:
+                # the caller's callback awaits something of its own (a UI queue, a log sink) for this long
+                if cb_takes == "inf":
+                    await anyio.sleep_forever()
+                await anyio.sleep(cb_takes)
 
         def wire_token():
             """The progress token as it actually went out on the wire (read from the written request)."""
@@ -196,7 +203,19 @@ def run_one(ctl: explorer.Ctl, cfg: Dict[str, Any]) -> Dict[str, Any]:
                     st.setdefault("early", []).append(m)
                 import asyncio as _a
                 st["peer"] = _a.ensure_future(take_one())
+            def close_write():
+                if wcl[0] == "owner":
+                    send_w.close()
+                else:
+                    wire_token()  # take what was written so far (the request) before the reader goes away
+                    recv_w.close()
+
             t0 = loop.time()
+            if wcl is not None:
+                if wcl[1] < 0:
+                    close_write()
+                else:
+                    loop.env_call_at(t0 + wcl[1], -5, close_write)
             resp = {"jsonrpc": "2.0", "id": RID, "result": {"ok": True}}
 
             def sched_cancel():
@@ -301,6 +320,37 @@ def run_one(ctl: explorer.Ctl, cfg: Dict[str, Any]) -> Dict[str, Any]:
         tc = c_eff[0]
     tr = r[0] if r is not None else None
     tol = 1e-9
+    # reference for a callback that takes time: the waiter is one sequential loop, so matching notifications are
+    # handled one after the other, each occupying the waiter for cb_takes; everything else queues behind
+    busy: List[tuple] = []   # (arrival, start, end) per matching notification
+    if cb_takes is not None:
+        D = math.inf if cb_takes == "inf" else cb_takes
+        end_prev = 0.0
+        for i, (kind, t) in enumerate(prog):
+            if kind in ("M", "M0"):
+                start = max(t, end_prev)
+                stops = start if (raise_at is not None and len(busy) == raise_at) else start + D
+                busy.append((t, start, stops))
+                end_prev = stops
+
+    def free_at(t):
+        """when the waiter can next look at anything that became true at time t"""
+        e = t
+        for (a, b, c2) in busy:
+            if a <= t + tol and c2 > e:
+                e = c2 if b <= t + tol or a <= t + tol else e
+        return e
+
+    tr_seen = free_at(tr) if (tr is not None and busy) else tr
+    # the token is looked at between two steps of the waiter (a message handled, a poll expired): a callback of the
+    # caller's that is running, or that starts before the next poll, holds the waiter until it ends - that time is
+    # the caller's, the polling interval counts from when the waiter is free
+    c_bound = None
+    if tc is not None:
+        c_bound = tc + POLL
+        for (a, b, c2) in busy:
+            if b <= tc + POLL + tol and c2 > tc:
+                c_bound = max(c_bound, c2)
 
     # ---- completion time never later than the deadline -------------------------------
     if done > T + tol:
@@ -328,30 +378,34 @@ def run_one(ctl: explorer.Ctl, cfg: Dict[str, Any]) -> Dict[str, Any]:
         if okind == "result":
             if tr is None or tr > T + tol:
                 bad("result-without-response", f"result returned but response time was {tr}")
-            elif abs(done - tr) > tol:
-                bad("result-at-wrong-time", f"result at {done}, response arrived at {tr}")
-            elif tc is not None and tr > tc + POLL + tol:
+            elif abs(done - tr_seen) > tol:
+                bad("result-at-wrong-time", f"result at {done}, response arrived at {tr}" + (f" (waiter free at {tr_seen})" if busy else ""))
+            elif tc is not None and tr > c_bound + tol:
                 bad("cancel-ignored", f"cancel at {tc}, response only at {tr} (> one poll later) yet the call returned it")
         elif okind == "cancelled":
             if tc is None:
                 bad("cancelled-without-cancel", "CancelledError although the token was never triggered")
             else:
-                if done < tc - tol or done > min(tc + POLL, T) + tol:
+                if done < tc - tol or done > min(c_bound, T) + tol:
                     bad("cancel-latency", f"cancel at {tc}, CancelledError at {done} (allowed: within one poll and before the deadline)")
-                if tr is not None and tr < tc - tol:
+                if tr is not None and tr_seen < tc - tol:
                     bad("cancelled-after-response", f"response had arrived at {tr} before cancel at {tc}")
         elif okind == "timeout":
             if abs(done - T) > tol:
                 bad("timeout-at-wrong-time", f"TimeoutError at {done}, deadline {T}")
-            if tr is not None and tr < T - tol:
+            if tr is not None and tr_seen < T - tol:
                 bad("lost-response", f"TimeoutError although the response arrived at {tr} < {T}")
-            if tc is not None and tc + POLL < T - tol and (tr is None or tr > tc + POLL + tol):
+            if tc is not None and c_bound < T - tol and (tr is None or tr > c_bound + tol):
                 bad("cancel-not-honoured", f"cancel at {tc}: expected CancelledError by {tc + POLL}, got TimeoutError at {T}")
         else:
             bad("unexpected-outcome", f"{okind}: {oval}")
 
     # ---- cancelled notification: exactly one iff the outcome is CancelledError ------------
-    if okind == "cancelled":
+    if okind == "cancelled" and wcl is not None and (wcl[1] < 0 or (tc is not None and wcl[1] <= tc + tol)):
+        # the outgoing stream was already closed when the token fired: the notification cannot be delivered
+        if cancelled_notes and wcl[0] == "owner":
+            bad("cancelled-notification-on-closed-stream", f"{len(cancelled_notes)} notifications although our end was closed")
+    elif okind == "cancelled":
         if len(cancelled_notes) != 1:
             bad("cancelled-notification-count", f"{len(cancelled_notes)} cancelled notifications for a cancelled request")
         elif cancelled_notes[0].get("params", {}).get("requestId") != RID:
@@ -368,6 +422,9 @@ def run_one(ctl: explorer.Ctl, cfg: Dict[str, Any]) -> Dict[str, Any]:
             if kind not in ("M", "M0"):
                 continue
             item = [i + 1, 10, f"m{i}"] if kind == "M" else None
+            if busy:
+                t = [b for b in busy if b[0] == t][0][1] if len([b for b in busy if b[0] == t]) == 1 else \
+                    busy[len([1 for (k2, _t2) in prog[:i] if k2 in ("M", "M0")])][1]   # when the waiter gets to it
             if t < done - tol:
                 exp.append(("must", item))
             elif abs(t - done) <= tol:
@@ -670,6 +727,29 @@ def configs_for(tier: str):
                         continue
                     g.append({"T": 1.0, "traffic": "none", "cancel": c, "response": r, "token_cbs": cbs, "late_cb": late})
     parts["token-with-user-callbacks"] = g
+    # (6) a progress callback that takes time (awaits something of the caller's): the deadline and the token still rule
+    g = []
+    for T in ((1.0, 2.2) if not thorough else (1.0, 1.2, 2.2)):
+        for prog in ([["M", 0.3]], [["M", 0.3], ["M", 0.4]], [["M", 0.9]], [["F", 0.2], ["M", 0.45], ["M0", 0.7]]):
+            for D in ((0.2, 0.8, 5.0, "inf") if not thorough else (0.05, 0.2, 0.5, 0.8, 1.3, 5.0, 1000.0, "inf")):
+                for r in (None, [0.5, 0], [0.95, 0]):
+                    for c in (None, [0.35, 0], [0.6, 0]):
+                        for ra in ((None,) if not thorough else (None, 0)):
+                            g.append({"T": T, "traffic": "none", "progress": prog, "cb": True, "cb_raise_at": ra, "cb_takes": D,
+                                      "response": r, "cancel": c})
+    parts["progress-callback-that-takes-time"] = g
+    # (7) the outgoing stream is closed (by its owner, or by its reader) while the request is pending, then the token fires
+    g = []
+    for T in (1.0, 2.2):
+        for who in ("owner", "peer"):
+            for tw in (0.1, 0.6):
+                for c in ([tw, 0], [tw + 0.2, 0], [tw + 0.3, 0], [T - 0.05, 0], None):
+                    for r in (None, [T - 0.02, 0]):
+                        for prog in ([], [["M", 0.2]]):
+                            g.append({"T": T, "traffic": "none", "progress": prog, "cb": bool(prog), "cancel": c, "response": r,
+                                      "write_closes": [who, tw]})
+            g.append({"T": T, "traffic": "none", "cancel": "pre", "response": None, "write_closes": [who, -1]})
+    parts["write-stream-closed-then-cancelled"] = g
     return parts
 
 
@@ -694,9 +774,12 @@ def run(tier: str, only=None) -> core.Result:
         "notifications over {matching, foreign token, matching without fields} x 4 time points x callback raising at each "
         "position x ending {response, timeout, cancel}; the caller's own token callbacks (quiet / failing, registered before or during "
         "the call) x cancel placements; one token shared by 2-3 requests on separate connections, concurrent (start offsets) or one after "
-        "the other, x cancel placements x per-request response times; distinct = distinct observation digests"
+        "the other, x cancel placements x per-request response times; a progress callback that itself awaits for D in {0.2,0.8,5,forever} (thorough: 8 values) x "
+        "4 progress streams x response/cancel placements (deadline and token still rule); the outgoing stream closed by its owner or by its reader at "
+        "0.1/0.6 (or before a pre-cancelled call) x cancel placements at/after the close; distinct = distinct observation digests"
     )
     res.assumptions = [
+        "time the caller's own progress callback spends awaiting is the caller's: the token is looked at when the waiter is free again, so the one-polling-interval bound counts from the end of a callback that is running (or starts before the next poll) when the token fires; the deadline bound is NOT relaxed",
         "when the response arrives after the token was triggered but within one polling interval, both the result and CancelledError are accepted (the statement's 'unless its response arrived first' does not fix which)",
         "events exactly at the deadline may go either way",
         "write stream is unbounded, so sending the cancelled notification never blocks",
